@@ -264,7 +264,7 @@ func CtxC(tag uint32, children ...*Node) *Node {
 func Prim(tag uint32, content []byte) *Node {
 	return &Node{Class: ClassUniversal, Tag: tag, Content: append([]byte{}, content...)}
 }
-func Null() *Node            { return Prim(TagNull, nil) }
+func Null() *Node           { return Prim(TagNull, nil) }
 func Octets(b []byte) *Node { return Prim(TagOctetString, b) }
 
 func nn(c []*Node) []*Node {
